@@ -21,10 +21,11 @@ pub mod h2s {
       macro m2($p0: ident) { r2($p0), if ($p0.clone() <= 3) }
       macro m3($p0: ident, $p1: ident) { r0($p0, $p1), if ($p1.clone() <= 5) }
       macro m4($p0: ident, $p1: expr) { r7($p0, $p1) }
-      m4!(v0, std::cmp::min(std::cmp::max(v1.clone(), 0), 6)) <-- r7(v0, v1), m3!(v0, v0);
-      m4!(v1, std::cmp::min((v1.clone() + 2), 6)) <-- r5(v0), m2!(v1);
-      m4!(v3, std::cmp::min((v0.clone() + 1), 6)) <-- r4(v0), m3!(v1, v2), m3!(v3, v2);
-      m4!(v0, std::cmp::min(std::cmp::min(v0.clone(), 1), 6)), r5(v0) <-- m0!(v0, v1);
+      r7(v1, v1) <-- r2(v0), m3!(v0, v1);
+      m4!(v0, std::cmp::min((v0.clone() + v0.clone()), 6)), r7(v1, v1) <-- m0!(v0, v1);
+      m4!(v0, std::cmp::min(std::cmp::min(v0.clone(), 4), 6)) <-- r7(0, 3), (m1!(v0, v2) | r1(v0, ?Some(v3)));
+      r6(v8, v3, v2) <-- r6(v0, v1, v2), (m1!(v3, v5) | r6(1, v3, ?Some(v6))), m1!(v7, v8);
+      r4(v0) <-- r1(v0, ?Some(v1));
    }
    pub struct Inst { p: Prog, pool: Option<ascent::rayon::ThreadPool> }
    pub fn make(pool: Option<usize>) -> Box<dyn Driver> {
@@ -67,20 +68,22 @@ pub mod h6s {
       relation r1(i64, Option<i64>);
       relation r2(i64);
       relation r3(i64, i64, i64);
-      relation r4(i64, Option<i64>);
-      relation r5(i64, i64, i64);
+      relation r4(i64);
+      relation r5(i64, i64);
       relation r6(i64, i64);
-      macro m0($p0: ident, $p1: ident) { r3(v0, $p1, $p0), if ($p1.clone() == 3) }
-      macro m1($p0: ident, $p1: expr) { ((r4($p0, ?Some(v0)), r6(_, v1), if (v1.clone() < v0.clone())) | r3($p0, $p1, v0), if let Some(v2) = Some($p1)), m0!(v3, v4), if ($p0.clone() < 5) }
-      macro m2($p0: ident, $p1: expr) { r4($p0, Some(($p0.clone() + $p0.clone()))) }
-      macro m3($p0: ident, $p1: ident) { r4($p0, ?Some(v0)), if (v0.clone() < $p1.clone()) }
-      macro m4($p0: ident, $p1: expr) { r5(1, $p0, $p1) }
-      macro m5($p0: expr, $p1: ident) { r5($p1, $p1, $p0), r6($p1, $p1) }
-      r6(v0, 3) <-- m0!(v0, v0);
-      r5(v0, (v0.clone() + 1), v0) <-- r1(v0, v1), m0!(v2, v2), if (v0.clone() < 5);
-      m5!(std::cmp::min((v2.clone() + 1), 6), v0), r6(v2, v0) <-- r4(v0, ?Some(v1)), m3!(v2, v0), m3!(v2, v2);
-      m5!(std::cmp::min(std::cmp::min(v1.clone(), 2), 6), v1) <-- r2(v0), (m1!(v1, std::cmp::max(v0.clone(), 1)) | r4(v1, ?None));
-      r4(v1, None::<i64>) <-- r1(v0, ?Some(v1));
+      relation r7(i64, i64);
+      macro m0($p0: ident) { r2($p0), r6($p0, ($p0.clone() + 2)) }
+      macro m1($p0: ident) { r5($p0, _), r3(v0, _, std::cmp::max($p0.clone(), 2)), if ($p0.clone() <= v0.clone()) }
+      macro m2($p0: ident, $p1: ident) { (r3(v0, $p1, $p0), r5(v1, v2) | r3(v0, $p0, $p1), r7(_, v3)), if ($p0.clone() == 4) }
+      macro m3($p0: expr) { r6(1, $p0), r6($p0, 2) }
+      macro m4($p0: expr, $p1: ident) { r5(2, $p1), r5(3, $p0), m3!(($p0 + 0)) }
+      m3!(std::cmp::min(std::cmp::min(v4.clone(), 1), 6)) <-- r3(v0, v0, v1), (m1!(v2) | r5(v2, std::cmp::max(v0.clone(), 1))), m1!(v4);
+      m4!(std::cmp::min(std::cmp::min(v3.clone(), 2), 6), v3), r6(1, v2) <-- r6(v0, v1), m1!(v2), m1!(v3);
+      r7(v0, v1) <-- r6(v0, _), m0!(v1), m0!(v2);
+      m4!(std::cmp::min(std::cmp::max(v2.clone(), 3), 6), v2) <-- r7(v0, 3), m2!(v1, v0), r2(v2);
+      m4!(std::cmp::min((v1.clone() + v1.clone()), 6), v2), r6(v2, v0) <-- r3(v0, v0, v1) if (v1.clone() <= 1), m1!(v2);
+      r4(v0) <-- r1(v0, None::<i64>);
+      m3!(3);
    }
    pub struct Inst { p: Prog, pool: Option<ascent::rayon::ThreadPool> }
    pub fn make(pool: Option<usize>) -> Box<dyn Driver> {
@@ -95,9 +98,10 @@ pub mod h6s {
          1 => { let v: Vec<(i64,Option<i64>,)> = parse_rows(rows)?; if append { self.p.r1.extend(v) } else { self.p.r1 = v } },
          2 => { let v: Vec<(i64,)> = parse_rows(rows)?; if append { self.p.r2.extend(v) } else { self.p.r2 = v } },
          3 => { let v: Vec<(i64,i64,i64,)> = parse_rows(rows)?; if append { self.p.r3.extend(v) } else { self.p.r3 = v } },
-         4 => { let v: Vec<(i64,Option<i64>,)> = parse_rows(rows)?; if append { self.p.r4.extend(v) } else { self.p.r4 = v } },
-         5 => { let v: Vec<(i64,i64,i64,)> = parse_rows(rows)?; if append { self.p.r5.extend(v) } else { self.p.r5 = v } },
+         4 => { let v: Vec<(i64,)> = parse_rows(rows)?; if append { self.p.r4.extend(v) } else { self.p.r4 = v } },
+         5 => { let v: Vec<(i64,i64,)> = parse_rows(rows)?; if append { self.p.r5.extend(v) } else { self.p.r5 = v } },
          6 => { let v: Vec<(i64,i64,)> = parse_rows(rows)?; if append { self.p.r6.extend(v) } else { self.p.r6 = v } },
+         7 => { let v: Vec<(i64,i64,)> = parse_rows(rows)?; if append { self.p.r7.extend(v) } else { self.p.r7 = v } },
             _ => return None,
          }
          Some(())
@@ -105,7 +109,7 @@ pub mod h6s {
       fn run(&mut self) { match &self.pool { Some(pl) => { let p = &mut self.p; pl.install(|| p.run()) }, None => self.p.run() } }
       fn run_here(&mut self) { self.p.run() }
       fn run_timeout(&mut self, k: usize) -> Option<bool> { let _ = k; None }
-      fn dump(&self) -> String { vec![dump_rel(0, self.p.r0.iter().map(Row::render).collect()), dump_rel(1, self.p.r1.iter().map(Row::render).collect()), dump_rel(2, self.p.r2.iter().map(Row::render).collect()), dump_rel(3, self.p.r3.iter().map(Row::render).collect()), dump_rel(4, self.p.r4.iter().map(Row::render).collect()), dump_rel(5, self.p.r5.iter().map(Row::render).collect()), dump_rel(6, self.p.r6.iter().map(Row::render).collect())].join(" | ") }
+      fn dump(&self) -> String { vec![dump_rel(0, self.p.r0.iter().map(Row::render).collect()), dump_rel(1, self.p.r1.iter().map(Row::render).collect()), dump_rel(2, self.p.r2.iter().map(Row::render).collect()), dump_rel(3, self.p.r3.iter().map(Row::render).collect()), dump_rel(4, self.p.r4.iter().map(Row::render).collect()), dump_rel(5, self.p.r5.iter().map(Row::render).collect()), dump_rel(6, self.p.r6.iter().map(Row::render).collect()), dump_rel(7, self.p.r7.iter().map(Row::render).collect())].join(" | ") }
       fn iters(&self) -> String { format!("iters {}", self.p.scc_iters.iter().map(|x| x.to_string()).collect::<Vec<_>>().join(" ")) }
    }
 }
@@ -123,19 +127,18 @@ pub mod h10s {
       relation r2(i64);
       relation r3(i64, i64, i64);
       relation r4(i64, i64);
-      relation r5(i64);
+      relation r5(i64, Option<i64>);
       relation r6(i64, i64);
-      relation r7(i64);
-      relation r8(i64, i64, i64);
-      macro m0($p0: ident, $p1: expr) { r5($p0) }
-      macro m1($p0: ident) { r4($p0, v0), m0!(v0, std::cmp::max($p0.clone(), 0)) }
-      macro m2($p0: ident, $p1: ident) { r4($p1, $p0), if ($p1.clone() < 1), r3(v0, 0, (v0.clone() + $p0.clone())), m1!(v1) }
-      macro m3($p0: expr, $p1: ident) { r6($p0, $p1), r6($p1, $p0) }
-      macro m4($p0: ident, $p1: expr) { r6($p1, 1), m3!(($p1 + 0), $p0) }
-      r6(v1, v0) <-- r0(v0, v1), m1!(v1);
-      r6(v0, v0) <-- r2(_), (m1!(v0) | r4(v2, v0) if (v2.clone() == 1));
-      m4!(v1, std::cmp::min(std::cmp::min(v0.clone(), 1), 6)) <-- r1(v0, Some(v0.clone())), m2!(v0, v1), m2!(v2, v2);
-      r5(v0) <-- r4(0, v0);
+      relation r7(i64, i64);
+      macro m0($p0: ident, $p1: expr) { (r1($p0, ?Some(v0)), if (v0.clone() == 1), !r4(std::cmp::max($p0.clone(), 2), std::cmp::max(v0.clone(), 2)) | r5($p0, ?Some(v0)) | r5($p0, ?Some(v0)), (r4(v0, v1) | r2(v1), if (v0.clone() < 4), let v2 = std::cmp::min((v0.clone() + 0), 6))), if ($p1 < v0.clone()) }
+      macro m1($p0: ident, $p1: expr) { (r3($p0, v0, $p1) | r1($p0, ?Some(v0)), if (v0.clone() < 3), let v1 = std::cmp::min(std::cmp::min(v0.clone(), 4), 6)), r1(v0, ?Some(v2)) }
+      macro m2($p0: ident, $p1: ident) { r4(_, $p0), if ($p0.clone() == 5), !r0($p1.clone(), $p1.clone()), m0!($p1, std::cmp::min($p0.clone(), 3)) }
+      macro m3($p0: ident, $p1: expr) { r1($p0, _), r3(v0, v0, ($p1 + 1)), if (v0.clone() <= 2), if ($p1 != 4) }
+      macro m4($p0: ident, $p1: expr) { r6(1, $p1) }
+      m4!(v1, std::cmp::min(std::cmp::max(v1.clone(), 0), 6)) <-- r0(v0, std::cmp::max(v0.clone(), 2)), m2!(v1, v0);
+      r6(v0, v1) <-- r6(v0, 1), (m3!(v1, std::cmp::max(v0.clone(), 1)) | r2(v1));
+      r6(v2, v2) <-- r0(v0, v1), m3!(v0, std::cmp::min(v1.clone(), 4)), m3!(v2, v0.clone() + v1.clone());
+      r5((v1.clone() + 1), Some(v0.clone())) <-- r0(v0, v1), if (v1.clone() < 5);
    }
    pub struct Inst { p: Prog, pool: Option<ascent::rayon::ThreadPool> }
    pub fn make(pool: Option<usize>) -> Box<dyn Driver> {
@@ -151,10 +154,9 @@ pub mod h10s {
          2 => { let v: Vec<(i64,)> = parse_rows(rows)?; if append { self.p.r2.extend(v) } else { self.p.r2 = v } },
          3 => { let v: Vec<(i64,i64,i64,)> = parse_rows(rows)?; if append { self.p.r3.extend(v) } else { self.p.r3 = v } },
          4 => { let v: Vec<(i64,i64,)> = parse_rows(rows)?; if append { self.p.r4.extend(v) } else { self.p.r4 = v } },
-         5 => { let v: Vec<(i64,)> = parse_rows(rows)?; if append { self.p.r5.extend(v) } else { self.p.r5 = v } },
+         5 => { let v: Vec<(i64,Option<i64>,)> = parse_rows(rows)?; if append { self.p.r5.extend(v) } else { self.p.r5 = v } },
          6 => { let v: Vec<(i64,i64,)> = parse_rows(rows)?; if append { self.p.r6.extend(v) } else { self.p.r6 = v } },
-         7 => { let v: Vec<(i64,)> = parse_rows(rows)?; if append { self.p.r7.extend(v) } else { self.p.r7 = v } },
-         8 => { let v: Vec<(i64,i64,i64,)> = parse_rows(rows)?; if append { self.p.r8.extend(v) } else { self.p.r8 = v } },
+         7 => { let v: Vec<(i64,i64,)> = parse_rows(rows)?; if append { self.p.r7.extend(v) } else { self.p.r7 = v } },
             _ => return None,
          }
          Some(())
@@ -162,13 +164,13 @@ pub mod h10s {
       fn run(&mut self) { match &self.pool { Some(pl) => { let p = &mut self.p; pl.install(|| p.run()) }, None => self.p.run() } }
       fn run_here(&mut self) { self.p.run() }
       fn run_timeout(&mut self, k: usize) -> Option<bool> { let _ = k; None }
-      fn dump(&self) -> String { vec![dump_rel(0, self.p.r0.iter().map(Row::render).collect()), dump_rel(1, self.p.r1.iter().map(Row::render).collect()), dump_rel(2, self.p.r2.iter().map(Row::render).collect()), dump_rel(3, self.p.r3.iter().map(Row::render).collect()), dump_rel(4, self.p.r4.iter().map(Row::render).collect()), dump_rel(5, self.p.r5.iter().map(Row::render).collect()), dump_rel(6, self.p.r6.iter().map(Row::render).collect()), dump_rel(7, self.p.r7.iter().map(Row::render).collect()), dump_rel(8, self.p.r8.iter().map(Row::render).collect())].join(" | ") }
+      fn dump(&self) -> String { vec![dump_rel(0, self.p.r0.iter().map(Row::render).collect()), dump_rel(1, self.p.r1.iter().map(Row::render).collect()), dump_rel(2, self.p.r2.iter().map(Row::render).collect()), dump_rel(3, self.p.r3.iter().map(Row::render).collect()), dump_rel(4, self.p.r4.iter().map(Row::render).collect()), dump_rel(5, self.p.r5.iter().map(Row::render).collect()), dump_rel(6, self.p.r6.iter().map(Row::render).collect()), dump_rel(7, self.p.r7.iter().map(Row::render).collect())].join(" | ") }
       fn iters(&self) -> String { format!("iters {}", self.p.scc_iters.iter().map(|x| x.to_string()).collect::<Vec<_>>().join(" ")) }
    }
 }
 
 #[allow(unused, non_snake_case, clippy::all)]
-pub mod a2s {
+pub mod a0s {
    use ascent::*;
    use ascent::aggregators::*;
    use ascent::lattice::{Dual, set::Set};
@@ -179,7 +181,7 @@ pub mod a2s {
       relation r1(i64);
       relation r2(i64, i64);
       relation r3(i64);
-      macro m0($p0: ident) { r0(v0, $p0), if (0 < v0.clone()) }
+      macro m0($p0: ident) { r0(v0, $p0) if (3 < v0.clone()) }
       r2(v0, v1) <-- r1(v0), m0!(v1);
       r3(v0) <-- r2(v0, _);
    }
@@ -209,7 +211,7 @@ pub mod a2s {
 }
 
 #[allow(unused, non_snake_case, clippy::all)]
-pub mod e2s {
+pub mod e0s {
    use ascent::*;
    use ascent::aggregators::*;
    use ascent::lattice::{Dual, set::Set};
@@ -220,7 +222,7 @@ pub mod e2s {
       relation r1(i64);
       relation r2(i64, i64);
       relation r3(i64);
-      macro m0($p0: ident, $p1: expr) { r0(v0, $p0), if ($p1 < 2) }
+      macro m0($p0: ident, $p1: expr) { r0(v0, $p0), if ((v0.clone() * $p1) < 5) }
       r2(v0, v1) <-- r1(v0), m0!(v1, v0.clone() + 2);
       r3(v0) <-- r2(v0, _);
    }
@@ -250,7 +252,48 @@ pub mod e2s {
 }
 
 #[allow(unused, non_snake_case, clippy::all)]
-pub mod o1s {
+pub mod e4s {
+   use ascent::*;
+   use ascent::aggregators::*;
+   use ascent::lattice::{Dual, set::Set};
+   use crate::common::*;
+   ascent! {
+      pub struct Prog;
+      relation r0(i64, i64);
+      relation r1(i64);
+      relation r2(i64, i64);
+      relation r3(i64);
+      macro m0($p0: ident, $p1: expr) { r0(v0, $p0), if (($p1 * v0.clone()) < 7) }
+      r2(v0, v1) <-- r1(v0), m0!(v1, v0.clone() + 1);
+      r3(v0) <-- r2(v0, _);
+   }
+   pub struct Inst { p: Prog, pool: Option<ascent::rayon::ThreadPool> }
+   pub fn make(pool: Option<usize>) -> Box<dyn Driver> {
+      let pool = pool.map(|n| ascent::rayon::ThreadPoolBuilder::new().num_threads(n).build().unwrap());
+      let p = match &pool { Some(pl) => pl.install(|| Default::default()), None => Default::default() };
+      Box::new(Inst { p, pool })
+   }
+   impl Driver for Inst {
+      fn load(&mut self, rel: usize, rows: &[Sexp], append: bool) -> Option<()> {
+         match rel {
+         0 => { let v: Vec<(i64,i64,)> = parse_rows(rows)?; if append { self.p.r0.extend(v) } else { self.p.r0 = v } },
+         1 => { let v: Vec<(i64,)> = parse_rows(rows)?; if append { self.p.r1.extend(v) } else { self.p.r1 = v } },
+         2 => { let v: Vec<(i64,i64,)> = parse_rows(rows)?; if append { self.p.r2.extend(v) } else { self.p.r2 = v } },
+         3 => { let v: Vec<(i64,)> = parse_rows(rows)?; if append { self.p.r3.extend(v) } else { self.p.r3 = v } },
+            _ => return None,
+         }
+         Some(())
+      }
+      fn run(&mut self) { match &self.pool { Some(pl) => { let p = &mut self.p; pl.install(|| p.run()) }, None => self.p.run() } }
+      fn run_here(&mut self) { self.p.run() }
+      fn run_timeout(&mut self, k: usize) -> Option<bool> { let _ = k; None }
+      fn dump(&self) -> String { vec![dump_rel(0, self.p.r0.iter().map(Row::render).collect()), dump_rel(1, self.p.r1.iter().map(Row::render).collect()), dump_rel(2, self.p.r2.iter().map(Row::render).collect()), dump_rel(3, self.p.r3.iter().map(Row::render).collect())].join(" | ") }
+      fn iters(&self) -> String { format!("iters {}", self.p.scc_iters.iter().map(|x| x.to_string()).collect::<Vec<_>>().join(" ")) }
+   }
+}
+
+#[allow(unused, non_snake_case, clippy::all)]
+pub mod o3s {
    use ascent::*;
    use ascent::aggregators::*;
    use ascent::lattice::{Dual, set::Set};
@@ -261,8 +304,9 @@ pub mod o1s {
       relation r1(i64);
       relation r2(i64, i64);
       relation r3(i64);
-      macro m0($p0: ident) { r1($p0) }
-      r3(v0) <-- m0!(v0), r0(v0, ?None);
+      macro m0($p0: ident) { r0($p0, ?None) }
+      macro m1($p0: ident) { r1($p0), m0!($p0) }
+      r3(v0) <-- m1!(v0);
       r2(v0, v0) <-- r3(v0);
    }
    pub struct Inst { p: Prog, pool: Option<ascent::rayon::ThreadPool> }
@@ -291,5 +335,5 @@ pub mod o1s {
 }
 
 fn main() {
-   common::main_loop(&[("h2s", h2s::make as common::Factory), ("h6s", h6s::make as common::Factory), ("h10s", h10s::make as common::Factory), ("a2s", a2s::make as common::Factory), ("e2s", e2s::make as common::Factory), ("o1s", o1s::make as common::Factory)]);
+   common::main_loop(&[("h2s", h2s::make as common::Factory), ("h6s", h6s::make as common::Factory), ("h10s", h10s::make as common::Factory), ("a0s", a0s::make as common::Factory), ("e0s", e0s::make as common::Factory), ("e4s", e4s::make as common::Factory), ("o3s", o3s::make as common::Factory)]);
 }
